@@ -14,6 +14,18 @@ CLAIMED = {
         "Real arithmetic, not IEEE: the clause 'finite in the tails' is partial (theorem C01_tail_bounds gives max <= lse <= max + log C over the reals; float behaviour is only searched). Trusted: Lean kernel, Mathlib, harness comparison with tolerance 1e-8.",
         "§6 C01",
     ),
+    "C02": (
+        "Lean 4 theorems (induction over the block list, List.Perm) about the model of e_step / GMMStats.__add__/__iadd__ + Float model vs implementation correspondence over enumerated row compositions",
+        "Proof: the statistics are t, the sums of Bayes posteriors and the posterior-weighted first/second moments, n >= 0 and sums to t; e_step of a concatenation is the sum; hence every list of blocks (any number, sizes, empty blocks) and every arrangement of rows into blocks folds to the whole-set statistics; + / += refuse exactly differing declared shapes. Tie: model@Float vs acc_stats/transform/+/+= on NumPy and Dask input over all 2^(n-1) compositions for small n plus random ones.",
+        "Real arithmetic; float rounding differences between summation orders are licensed only up to 1e-8 on sampled inputs. Dask's reduction internals are not modelled (only its result).",
+        "§6 C02",
+    ),
+    "C03": (
+        "Lean 4 theorem C03_ml_em_monotone (EM lower bound, Gibbs inequality, weighted least squares, log t <= t-1) for all 8 switch combinations + emLoop_spec stopping-rule theorem; Float model vs implementation for the M-step, and the model's loop replayed on the implementation's recorded criterion trajectory (exact)",
+        "Proof: one ML EM iteration of the model never decreases the training log-likelihood for all C, D, data, switches under the 'no floor active' guards; fit performs k <= max iterations, returns the k-th iterate, never met the test at an earlier iteration >= 2 and k = max or the test holds at k (<=, relative change, from the second iteration). Tie: M-step correspondence (K) and stop index on recorded trajectories incl. exact boundary thresholds and float neighbours (O), NumPy and Dask.",
+        "Real arithmetic; termination for max_fitting_steps=None is not claimed (the loop is modelled with fuel). The trajectory is observed by wrapping gmm.m_step from the harness.",
+        "§6 C03",
+    ),
 }
 
 NOT_YET = "check not built yet in this round (see DESIGN.md §8 order of work); not claimed"
